@@ -47,7 +47,18 @@ def confirm(sid, patch, demo, tests):
         fp, tp = pytest_failures(WT, tests, sid)
         sh(f"git -C {WT} checkout -- . ")
         fc, tc = pytest_failures(WT, tests, "clean")
-        res["tests"] = {"files": tests, "patched_summary": tp, "clean_summary": tc, "new_failures": sorted(set(fp) - set(fc))}
+        newf = sorted(set(fp) - set(fc))
+        flaky = []
+        if newf:
+            # wall-clock based tests (test_multi_key_large_data races pandas) fail at random on a loaded machine:
+            # a "new" failure counts only if it fails again when run alone on the patched tree
+            sh(f"git -C {WT} apply --whitespace=nowarn {patch}")
+            again, _ = pytest_failures(WT, newf, sid + "_again")
+            flaky = sorted(set(newf) - set(again))
+            newf = sorted(set(newf) & set(again))
+            sh(f"git -C {WT} checkout -- . ")
+        res["tests"] = {"files": tests, "patched_summary": tp, "clean_summary": tc, "new_failures": newf,
+                        "failed_once_but_pass_alone_on_patched_tree": flaky}
     sh(f"git -C {WT} checkout -- . && rm -f {WT}/_demo.py")
     shutil.rmtree(f"/tmp/nbcache_confirm_{sid}", ignore_errors=True)
     ok = applied and r0.returncode == 0 and r1 is not None and r1.returncode != 0 and not (res.get("tests", {}).get("new_failures"))
